@@ -25,7 +25,9 @@ def project(rng):
     cpkg = rng.choice(["", "pk", "pk/sub"])
     deps_pool = [("//:a", "run_experiment", ""), ("//pk:b", "run_experiment", "pk"), ("//pk/sub:c", "run_experiment", "pk/sub"),
                  ("//:cmd", "run_command", ""), ("//pk:quiet", "run_command", "pk"), ("//:grp", "group", ""),
-                 ("//pk:inner", "combine", "pk"), ("//:fickle", "run_command", "")]
+                 ("//pk:inner", "combine", "pk"), ("//:fickle", "run_command", ""),
+                 # names that look like scratch / backup names of OTHER dependencies (entry names share one directory)
+                 ("//:a_tmp", "run_experiment", ""), ("//pk:cmd_old", "run_command", "pk"), ("//:a-new", "run_command", "")]
     tasks = []
     for ident, kind, pkg in deps_pool:
         name = ident.split(":")[1]
@@ -146,6 +148,9 @@ def scenario(rng, k):
         steps.append({"cmd": "run", "argv": ["run", "//:top", "--again"], "clock": 400, "exits": {"a": 2}})
     if rng.random() < 0.4:
         nm = rng.choice(chosen).split(":")[1]
+        twins = [c.split(":")[1] for c in chosen if any(c.split(":")[1] == o.split(":")[1] + sfx for o in chosen for sfx in ("_tmp", "_old", "-new"))]
+        if twins and rng.random() < 0.7:
+            nm = rng.choice(twins)
         entry = os.path.join("cond-out", cpkg, "comb.task", nm)
         kind = rng.choice(["file", "dir"])
         steps.append({"cmd": "plant", "entries": [{"path": entry, "kind": "remove"},
